@@ -32,7 +32,7 @@ ASSUMPTIONS = [
     "Junos-like vendors (juniper, ribbon, nokia): flattened set/delete statements are segmented into rows by the rulebook (block rows have a fixed word count, no catch-alls, no %rewrite, no negated-form rules there); `set` creates missing blocks, `delete` inside a missing block is a no-op",
     "the RouterOS formatter is not simulated here",
 ]
-FLOORS = {"quick": {"patches_executed": 3000, "commands_executed": 5000, "removals_executed": 500, "second_diffs_empty": 3000, "flat_patches_executed": 800, "flat_commands_executed": 2000, "overlapping_rule_cases": 50, "undo_redo_block_cases": 50, "model_chain_patches_executed": 45, "ignore_changes_block_cases": 50, "ordered_rewrite_body_cases": 25, "rulebooks_with_an_ignore_case_rule_beside_case_sensitive_ones": 150, "rulebooks_with_global_rules_on_two_levels": 60, "ordered_rules_that_also_name_a_logic": 100, "rulebooks_with_two_block_kinds_sharing_child_rule_texts": 250},
+FLOORS = {"quick": {"patches_executed": 3000, "commands_executed": 5000, "removals_executed": 500, "second_diffs_empty": 3000, "flat_patches_executed": 800, "flat_commands_executed": 2000, "overlapping_rule_cases": 50, "undo_redo_block_cases": 50, "model_chain_patches_executed": 45, "ignore_changes_block_cases": 50, "ordered_rewrite_body_cases": 25, "rulebooks_with_an_ignore_case_rule_beside_case_sensitive_ones": 150, "rulebooks_with_global_rules_on_two_levels": 60, "ordered_rules_that_also_name_a_logic": 100, "rulebooks_with_two_block_kinds_sharing_child_rule_texts": 250, "rulebooks_with_ordered_entries_holding_nested_blocks": 250},
           "thorough": {"patches_executed": 100000, "commands_executed": 200000, "removals_executed": 20000, "second_diffs_empty": 100000, "flat_patches_executed": 30000, "flat_commands_executed": 80000, "overlapping_rule_cases": 2000, "undo_redo_block_cases": 2000, "model_chain_patches_executed": 300, "ignore_changes_block_cases": 2000, "ordered_rewrite_body_cases": 1000}}
 BLOCK_VENDORS = ["huawei", "h3c", "optixtrans", "cisco", "nexus", "iosxr", "arista", "aruba", "b4com", "pc"]
 FLAT_VENDORS = {"juniper": {"set"}, "ribbon": {"set"}, "nokia": {"/configure"}}
@@ -272,6 +272,12 @@ def run_case(case, acc):
         rules[0:0] = [RB.Rule("ta *", children=[RB.Rule("tf *", children=[RB.Rule(leaf_a)])]),
                       RB.Rule("tb *", children=[RB.Rule("tf *", children=[RB.Rule(leaf_b)] + ([RB.Rule(leaf_a, logic="common.undo_redo")] if trng.random() < 0.3 else []))])]
         acc.count("rulebooks_with_two_block_kinds_sharing_child_rule_texts")
+    if case.get("ordnest"):
+        # entries of an ordered list that hold a nested block of an ordinary rule (two levels below the entry): when an entry moves, it is
+        # deleted and re-created with everything the desired configuration holds below it, nested blocks included
+        # (inside a block of its own: one ordered list per level, the order between two lists is not defined)
+        rules.insert(0, RB.Rule("tn *", children=[RB.Rule("qn *", ordered=True, children=[RB.Rule("sn *", children=[RB.Rule("ln *"), RB.Rule("lw *"), RB.Rule("lv *", logic="common.ignore_changes")]), RB.Rule("ld *")])]))
+        acc.count("rulebooks_with_ordered_entries_holding_nested_blocks")
     gn_host = None
     if case.get("gnest") and vname not in FLAT_VENDORS:
         # %global rules on two nesting levels: an outer `gd ~ %global` at the top and, inside a block rule, an inner `gs * %global` of its own;
@@ -367,7 +373,9 @@ def run_case(case, acc):
         acc.count("ordered_rewrite_body_cases")
     acc.distinct("rulebook_features", "|".join(sorted(f for f, p in FEATURES.items() if G.has_feature(rules, p))))
     for i in range(case["chain"]):
-        if case.get("ordrw") and rng.random() < 0.4:
+        if case.get("ordnest") and rng.random() < 0.6:
+            new = G.mutate_tree(rng, lowcase(reorder_only(rng, old)), rules, rate=0.5)  # entries permuted, and some lines below them changed
+        elif case.get("ordrw") and rng.random() < 0.4:
             new = reorder_only(rng, old)  # the same lines, ordered lists permuted, bodies untouched
         elif rng.random() < 0.65:
             new = G.mutate_tree(rng, lowcase(old), rules)  # (keys are compared in the generator's own lower-case spelling)
@@ -579,8 +587,12 @@ def run_shard(spec, acc):
             case["ordlogic"] = True
         if j % 8 in (3, 4):
             case["twins"] = True
+        if j % 8 in (0, 7):
+            case["ordnest"] = True
         run_case(case, acc)
     flat = sorted(FLAT_VENDORS)
     for j in range((total // 3) // n):
         case = {"vendor": flat[(j + k) % len(flat)], "seed": rng.randrange(1 << 48), "chain": rng.randint(1, 4 if tier == "quick" else 8)}
+        if j % 3 == 1:
+            case["ordnest"] = True
         run_case(case, acc)
